@@ -210,21 +210,22 @@ namespace
     double dip = 45, vsub = 0.05, vspread = 0.05, ridge_x = -4e6, coupling = 8e4, taper = 1e5, forearc = 1.0, min_dist = -2e5, max_dist = 3e5;
     bool adiabatic = true, spline = false, curved = false;
     double length = 8e5;   // total length of the slab
+    double m_cp = -1, m_tp = -1, m_alpha = -1;   // model-level overrides of the global constants (-1: use the global value)
     int overriding = 0;   // 0 nothing above, 1 cold continental plate above the slab, 2 warm uniform layer
   };
   std::string describe(const Slab &s)
   {
     return JObj().str("model", s.model == 2 ? "plate model" : s.model == 1 ? "mass conserving / plate model reference" : "mass conserving / half space reference").num("dip", s.dip).boolean("dip_increases_along_slab", s.curved).num("subducting_velocity", s.vsub)
            .num("spreading_velocity", s.vspread).num("ridge_x", s.ridge_x).num("coupling_depth", s.coupling).num("taper_distance", s.taper).num("forearc_cooling_factor", s.forearc).num("min_distance_slab_top", s.min_dist)
-           .num("max_distance_slab_top", s.max_dist).boolean("adiabatic_heating", s.adiabatic).boolean("apply_spline", s.spline).integer("overriding_plate", s.overriding).num("slab_length", s.length).done();
+           .num("max_distance_slab_top", s.max_dist).boolean("adiabatic_heating", s.adiabatic).boolean("apply_spline", s.spline).integer("overriding_plate", s.overriding).num("slab_length", s.length).num("model_specific_heat", s.m_cp).num("model_potential_mantle_temperature", s.m_tp).num("model_thermal_expansion_coefficient", s.m_alpha).done();
   }
   std::string slab_world(const Slab &s, bool with_slab_temperature)
   {
     std::string tm;
     if (s.model == 2)
-      tm = "{\"model\":\"plate model\",\"density\":3300,\"plate velocity\":" + num(s.vsub) + ",\"adiabatic heating\":" + (s.adiabatic ? "true" : "false") + ",\"min distance slab top\":" + num(s.min_dist == -5e4 ? 2e4 : 0.0) + ",\"max distance slab top\":" + num(s.max_dist == 1.5e5 ? 6e4 : 1e5) + "}";
+      tm = "{\"model\":\"plate model\",\"specific heat\":" + num(s.m_cp) + ",\"potential mantle temperature\":" + num(s.m_tp) + ",\"thermal expansion coefficient\":" + num(s.m_alpha) + ",\"density\":3300,\"plate velocity\":" + num(s.vsub) + ",\"adiabatic heating\":" + (s.adiabatic ? "true" : "false") + ",\"min distance slab top\":" + num(s.min_dist == -5e4 ? 2e4 : 0.0) + ",\"max distance slab top\":" + num(s.max_dist == 1.5e5 ? 6e4 : 1e5) + "}";
     else
-      tm = "{\"model\":\"mass conserving\",\"density\":3300,\"thermal conductivity\":3.3,\"adiabatic heating\":" + std::string(s.adiabatic ? "true" : "false") + ",\"spreading velocity\":" + num(s.vspread) + ",\"subducting velocity\":" + num(s.vsub)
+      tm = "{\"model\":\"mass conserving\",\"specific heat\":" + num(s.m_cp) + ",\"potential mantle temperature\":" + num(s.m_tp) + ",\"thermal expansion coefficient\":" + num(s.m_alpha) + ",\"density\":3300,\"thermal conductivity\":3.3,\"adiabatic heating\":" + std::string(s.adiabatic ? "true" : "false") + ",\"spreading velocity\":" + num(s.vspread) + ",\"subducting velocity\":" + num(s.vsub)
            + ",\"ridge coordinates\":[[[" + num(s.ridge_x) + ",-2e6],[" + num(s.ridge_x) + ",2e6]]],\"coupling depth\":" + num(s.coupling) + ",\"forearc cooling factor\":" + num(s.forearc) + ",\"taper distance\":" + num(s.taper)
            + ",\"min distance slab top\":" + num(s.min_dist) + ",\"max distance slab top\":" + num(s.max_dist) + ",\"reference model name\":\"" + (s.model == 1 ? "plate model" : "half space model") + "\",\"apply spline\":" + (s.spline ? "true,\"number of points in spline\":7" : "false") + "}";
     const std::string segs = s.curved ? "[{\"length\":" + num(0.375*s.length) + ",\"thickness\":[3e5],\"top truncation\":[-2e5],\"angle\":[" + num(s.dip * 0.4) + "," + num(s.dip) + "]},{\"length\":" + num(0.625*s.length) + ",\"thickness\":[3e5],\"top truncation\":[-2e5],\"angle\":[" + num(s.dip) + "]}]"
@@ -256,7 +257,9 @@ namespace
             if (a[1] < 0 || a[1] != static_cast<double>(s.overriding ? 1 : 0)) { if (!(t == ambient)) { ctx.violation("C20/slab/temperature-changed-outside-the-slab", JObj().raw("model", describe(s)).raw("point", jarr(p)).num("depth", d).num("temperature", t).num("without_the_slab_model", ambient).str("world", text).done()); return; } continue; }
             ctx.count(c_env);
             if (t != ambient) { ++changed; ctx.count(c_in); }
-            const double hot = std::max(ambient, adiabat(d)), cold = G_TSURF;
+            // the hot end member: ambient temperature, the world's adiabat, and the adiabat of the model's own constants where it overrides them
+            const double tp_m = s.m_tp > 0 ? s.m_tp : G_TP, al_m = s.m_alpha > 0 ? s.m_alpha : G_ALPHA, cp_m = s.m_cp > 0 ? s.m_cp : G_CP;
+            const double hot = std::max(std::max(ambient, adiabat(d)), tp_m * std::exp(al_m * G_GRAV * d / cp_m)), cold = G_TSURF;
             const double tol = 1e-6 * hot;
             if (!(t >= cold - tol && t <= hot + tol))
               {
@@ -274,7 +277,7 @@ namespace
   std::vector<Slab> slabs(bool th)
   {
     // deviation-bounded: all tuples that differ from the default slab in at most 2 | 3 coordinates
-    const std::vector<uint64_t> radices = {3 /*model*/, 4 /*dip*/, 3 /*vsub*/, 3 /*vspread*/, 3 /*ridge*/, 3 /*coupling*/, 3 /*taper*/, 2 /*forearc*/, 3 /*min dist*/, 2 /*max dist*/, 2 /*adiabatic*/, 2 /*spline*/, 2 /*curved*/, 3 /*overriding*/, 3 /*length*/};
+    const std::vector<uint64_t> radices = {3 /*model*/, 4 /*dip*/, 3 /*vsub*/, 3 /*vspread*/, 3 /*ridge*/, 3 /*coupling*/, 3 /*taper*/, 2 /*forearc*/, 3 /*min dist*/, 2 /*max dist*/, 2 /*adiabatic*/, 2 /*spline*/, 2 /*curved*/, 3 /*overriding*/, 3 /*length*/, 2 /*model cp*/, 2 /*model Tp*/, 2 /*model alpha*/};
     std::vector<Slab> v;
     for (auto &d : deviations(radices, th ? 4 : 2))
       {
@@ -294,6 +297,10 @@ namespace
         s.curved = d[12] == 1;
         s.overriding = static_cast<int>(d[13]);
         s.length = std::vector<double>{8e5, 3.5e5, 2e5}[d[14]];     // short slabs: the taper zone reaches above the coupling depth
+        // model-level constants below the global ones (a colder, stiffer model inside a hotter world stays inside the world's envelope)
+        s.m_cp = d[15] ? 0.8 * G_CP : -1;     // (a smaller specific heat steepens the model's own adiabat: the envelope below takes the model's adiabat into account)
+        s.m_tp = d[16] ? 0.9 * G_TP : -1;
+        s.m_alpha = d[17] ? 0.6 * G_ALPHA : -1;
         v.push_back(s);
       }
     // full product over the coordinates that decide where along the slab the coupling depth, the taper and the tip lie relative to each other
@@ -369,7 +376,7 @@ int main(int argc, char **argv)
   spec.level = "exploration";
   spec.rule = "suite oceanic: full product of model {half space, plate, constant-age plate} x (top, bottom) temperatures with top <= bottom x max depth x ridge geometry {straight, bent, two segments with transform, spherical} x spreading velocity x "
               "{uniform, varying along the ridge}; every world probed on 16 x 5 surface positions (on the ridge axis, 0.1 m / 100 m / 1 km from it, far from it, on both sides) x 43 depths. suite slabs: every parameter tuple of the mass conserving "
-              "and plate model slab temperatures within 2 | 4 deviations of a default (15 coordinates: model, dip, velocities, ridge distance, coupling depth, taper, forearc cooling, distance range, adiabatic heating, spline, curved slab, overriding plate, slab length), plus the full product of slab length x coupling depth x taper distance x subducting velocity x ridge distance x dip (3^6) with the other coordinates at their defaults "
+              "and plate model slab temperatures within 2 | 4 deviations of a default (18 coordinates: model, dip, velocities, ridge distance, coupling depth, taper, forearc cooling, distance range, adiabatic heating, spline, curved slab, overriding plate, slab length, model-level specific heat / potential mantle temperature / thermal expansion coefficient), plus the full product of slab length x coupling depth x taper distance x subducting velocity x ridge distance x dip (3^6) with the other coordinates at their defaults "
               "on a 37 x 57 x 2 probe lattice. suite linear: linear models of all five feature types x range relations x boundary temperatures. non-trivial: some probe strictly between the end members";
   spec.assumptions = {"envelope of slab models: surface temperature <= T <= max(ambient temperature, background adiabat at that depth); the ambient temperature is what the same world answers when the slab has no temperature model (twin world)",
                       "comparisons are written in negated form so that NaN counts as outside the envelope",
